@@ -109,6 +109,8 @@ def guard_summary(o, fn=None, pv=None):
             return
         if is_call(x):
             n = x[1].split("::")[-1]
+            if n == "ne":
+                n = "eq"        # `if a != b { Err }` and `ensure(a == b, err)?` test the same thing
             raw.add(n)
             d2 = depth + (1 if names else 0)
             if n not in NOISE:
@@ -127,6 +129,10 @@ def guard_summary(o, fn=None, pv=None):
         elif x[0] in ("ref", "deref", "field", "variant", "tryok", "discr", "elemk"):
             walk(x[1], depth)
         elif x[0] == "tuple":
+            for y in x[1]:
+                walk(y, depth)
+        elif x[0] == "phi":
+            # a boolean chosen on several paths (`a.len() == 3 || a.len() == 4` evaluated before it is handed to a helper)
             for y in x[1]:
                 walk(y, depth)
     for x0 in lasts:
